@@ -261,7 +261,7 @@ func runBytes(c BytesCase, ev *pbt.Ev) error {
 }
 
 func TestProp_Bytes(t *testing.T) {
-	pbt.Run(t, pbt.Options{Prop: "C04", Name: "Bytes", Quick: 12000, Thorough: 1500000, Current: true, Timeout: 60 * time.Second,
+	pbt.Run(t, pbt.Options{Prop: "C04", Name: "Bytes", Quick: 12000, Thorough: 144000, Current: true, Timeout: 60 * time.Second,
 		Rule: "rapid: byte strings offered as a blob: raw (0-300 bytes, and every interesting length around the footer sizes 40/46/47/51 filled with zero/ff/random/gzip-header bytes), valid gzip/zstd/external-TOC blobs with 1-4 bytes rewritten (biased to TOC+footer) or truncated, " +
 			"and compositions payload|TOC section|footer where the footer is generated field by field (XLEN, flags, SI1/SI2, LEN, hex offset incl. >size, negative, signed, 2^63; zstd offset/lengths incl. 0, <8, 2^62, 2^63, 2^64-1; legacy footer); " +
 			"every consumer is run: each ParseFooter, estargz.Open/OpenFooter/Unpack, memory and DB metadata readers with a full walk, file reads, fs/reader Cache + VerifyTOC + reads. oracle: returns (value|error): no panic, no fatal error, no hang (30 s watchdog, re-run alone). " +
@@ -452,7 +452,7 @@ func runTOC(c TOCCase, ev *pbt.Ev) error {
 }
 
 func TestProp_TOC(t *testing.T) {
-	pbt.Run(t, pbt.Options{Prop: "C04", Name: "TOC", Quick: 12000, Thorough: 1500000, Current: true, Timeout: 60 * time.Second,
+	pbt.Run(t, pbt.Options{Prop: "C04", Name: "TOC", Quick: 12000, Thorough: 144000, Current: true, Timeout: 60 * time.Second,
 		Floors: map[string]float64{"nontrivial": 0.5},
 		Rule: "rapid: syntactically valid TOC JSON from an adversarial grammar (0-10 entries; names incl. empty . .. / a//b ../x, 5000-20000 component chains, reserved names; types incl. chunk-first, unknown, empty; hardlinks to self / each other / own parent / missing; " +
 			"size/offset/chunkOffset/chunkSize/innerOffset from {0,1,16,2^20..2^63-1,-1,-2^63} or real member offsets; bad or missing digests; hostile mode/uid/modtime/dev; odd raw JSON documents) wrapped in a valid gzip / zstd:chunked / external-TOC container over 4 real compressed members; " +
